@@ -16,6 +16,29 @@ def rule_token_init(repo, res, rule="TOKEN-INIT"):
     from . import flow
     init = repo.full("Token", "__init__")
     params = [a.arg for a in init.args.args]
+    # first by abstract interpretation of the constructor (object identity): Token(x, grammar=G, decoder=D) keeps G and D,
+    # Token(x, grammar=G) keeps G, Token(x, decoder=D) keeps D -- whatever helpers the constructor delegates to
+    from . import ctor
+    try:
+        G, D = ctor.Inst("PVLGrammar"), ctor.Inst("PVLDecoder")
+        D.attrs["grammar"] = ctor.Inst("PVLGrammar")
+        cases = {"grammar": [dict(grammar=G, decoder=D), dict(grammar=G)], "decoder": [dict(grammar=G, decoder=D), dict(decoder=D)]}
+        verdict = {}
+        for attr, kws in cases.items():
+            got = [ctor.construct(repo, "Token", content=ctor.Const("x"), **kw).attrs.get(attr) for kw in kws]
+            want = G if attr == "grammar" else D
+            if any(v is ctor.UNK or v is None for v in got):
+                verdict = None
+                break
+            verdict[attr] = all(v is want for v in got)
+    except AnalysisError:
+        verdict = None
+    if verdict is not None and all(verdict.values()):
+        for attr in ("grammar", "decoder"):
+            if attr not in params:
+                raise AnalysisError(f"anchor vanished: parameter {attr} of Token.__init__")
+            res.oblige(rule, f"Token.__init__: a supplied {attr} argument is the token's {attr} (constructor interpreted: object identity)", ok=True)
+        return
     sc = flow.stmts_with_conds(init.body)
     for attr in ("grammar", "decoder"):
         if attr not in params:
